@@ -451,6 +451,19 @@ def stmt (st : St) (ws : List String) : St × String :=
      | _, _ => (st, "skip"))
   | ["routelate", l, r, k0, k] => routeLateStmt st l r k0 k
   | ["handlerlisten", l, trig, s] => handlerListenStmt st l trig s
+  | ["routehandler", l, trig, r, k] =>
+    -- `trig.once().listen(|_| { r.filter_matches(k).listen(log l) })`: the events routed to `k` from the transaction of the
+    -- request on (a transaction of its own when `trig` is a deferred stream: then nothing of the earlier one)
+    if !st.fresh l then (st, "skip") else
+    (match st.stream trig, num k, st.find r with
+     | some t, some k, some (.router src sel) =>
+       st.inTxn fun st =>
+         let j := st.sp.defs.size
+         let st := st.addDef (l ++ "#r") (.route src sel k) .s
+         let (st, _, e) := lateEvents st l t j
+         let st := { st with lis := st.lis.push { name := l, target := e, isCell := false, regTxn := st.sp.txn, weak := false } }
+         st.bind l .post
+     | _, _, _ => (st, "skip"))
   | ["lateswitch", l, trig, s] => handlerListenStmt st l trig s      -- `switch_s` over a constant cell holding `s` is `s`
   | ["lateswitchc", l, trig, c] =>
     -- `switch_c` over a constant cell holding `c`, its updates listened to: the updates of `c`
